@@ -60,6 +60,11 @@ def generate(ctx):
                 d["kernel"] = "osc"       # user kernel whose sign changes with the time difference: samples can pull opposite ways
             d["dtype"] = "float32"
         yield d
+    for i in range(60 if th else 6):
+        yield {"kind": "homeostasis", "B": rng.randint(2, 4), "T": rng.randint(4, 8), "seed": rng.randrange(1 << 30),
+               "param": ["weight", "bias", "delay"][i % 3], "reduction": rng.choice(["sum", "sum", "mean"]),
+               "conn": rng.choice(["dense", "direct", "lateral"]), "plasticity": rng.choice([0.1, -0.05, 0.3]),
+               "target": rng.choice([0.2, 0.5, 0.8])}
     # delay-aware training on every connection type (the trainer reads per-synapse delayed presynaptic histories per sample)
     for tname in ("STDP", "TripletSTDP", "MSTDP", "KernelSTDP"):
         for conn in (["conv", "dense", "direct", "lateral"] if th else ["conv", rng.choice(["dense", "direct", "lateral"])]):
@@ -72,6 +77,57 @@ def generate(ctx):
 
 def _np(t):
     return t.detach().to(torch.float64).numpy()
+
+
+def _homeostasis(ctx, desc):
+    """homeostatic plasticity: the parts of a batched step are the configured reduction of the per-sample parts"""
+    from inferno.extra import ExactNeuron
+    B, param, red = desc["B"], desc["param"], desc["reduction"]
+    R = {"sum": torch.sum, "mean": torch.mean}[red]
+
+    def build(b):
+        conn = fac.make_connection(desc["conn"], 1.0, syn="delta", B=b, delay=2.0, bias=True, nin=3, nout=2)
+        fac.randomize(conn, torch.Generator().manual_seed(desc["seed"]), delay_steps=2, dt=1.0)
+        neuron = ExactNeuron(conn.outshape, 1.0, rest_v=-60.0, thresh_v=-50.0, batch_size=b)
+        layer = neural.Serial(conn, neuron)
+        conn.updater = conn.defaultupdater()
+        trn = learn.LinearHomeostasis(desc["plasticity"], desc["target"], param, batch_reduction=R)
+        trn.register_cell("c", layer.cell)
+        return conn, layer, trn
+
+    cb, lb, tb = build(B)
+    singles = [build(1) for _ in range(B)]
+    g = torch.Generator().manual_seed(desc["seed"] + 1)
+
+    def parts(conn):
+        acc = getattr(conn.updater, param)
+        ref = getattr(conn, param)
+        z = torch.zeros_like(ref)
+        out = (z if acc.pos is None else acc.pos.detach().clone()), (z if acc.neg is None else acc.neg.detach().clone())
+        conn.updater.clear()
+        return out
+
+    for t in range(desc["T"]):
+        pre = torch.rand((B,) + tuple(cb.inshape), generator=g) < 0.5
+        post = torch.rand((B,) + tuple(cb.outshape), generator=g) < torch.rand((B,) + tuple(cb.outshape), generator=g)
+        lb(pre, neuron_kwargs={"override": post})
+        tb()
+        pb, nb_ = parts(cb)
+        ps, ns = [], []
+        for b, (c1, l1, t1) in enumerate(singles):
+            l1(pre[b:b + 1], neuron_kwargs={"override": post[b:b + 1]})
+            t1()
+            p1, n1 = parts(c1)
+            ps.append(p1)
+            ns.append(n1)
+        ctx.case(f"homeostasis/{param}/{desc['conn']}/{red}/B{B}")
+        ctx.count("homeostasis_batched_steps_checked")
+        for side, got, each in (("potentiating", pb, ps), ("depressing", nb_, ns)):
+            want = R(torch.stack(each, 0), 0)
+            if tuple(got.shape) != tuple(want.shape) or not torch.allclose(got, want, rtol=1e-5, atol=1e-6):
+                return ctx.violation(f"trainer.LinearHomeostasis.{param}.batched_part_ne_reduction_of_per_sample_parts.{red}",
+                                     f"step {t}: the {side} part of a batched step on '{param}' is not the {red} of the per-sample parts", desc,
+                                     {"max_err": float((got - want).abs().max()) if tuple(got.shape) == tuple(want.shape) else None})
 
 
 def _per_sample_inputs(g, B, shape, T, p_levels, as_bool=False, scale=1.0):
@@ -111,7 +167,8 @@ def run_case(ctx, desc):
         ctx.count("sampled." + kind)
         ctx.sample(desc)
     try:
-        {"neuron": _neuron, "synapse": _synapse, "connection": _connection, "layer": _layer, "trainer": _trainer}[kind](ctx, desc)
+        {"neuron": _neuron, "synapse": _synapse, "connection": _connection, "layer": _layer, "trainer": _trainer,
+         "homeostasis": _homeostasis}[kind](ctx, desc)
     except inferno_errors() as e:  # noqa: BLE001
         ctx.violation(ctx.exc_signature(e, f"{kind}"), f"{type(e).__name__}: {str(e)[:160]}", desc)
 
